@@ -271,3 +271,41 @@ Proof.
   unfold lipM. destruct y as [|? [|? [|? [|? [|? ?]]]]]; try lra;
     repeat match goal with |- context [Rabs ?x] => pose proof (Rabs_pos x); generalize dependent (Rabs x); intros end; lra.
 Qed.
+
+(* ------------------------------------------------------------------ *)
+(** * A sign change of a polynomial brackets a root (what the per-case
+      certificates of the C12 check establish: a lower bound on the number of
+      crossings, next to the Sturm count) *)
+Lemma peval_continuity_from (p : list R) (acc : R -> R) :
+  continuity acc -> continuity (fun x => fold_left (fun y c => y * x + c) p (acc x)).
+Proof.
+  revert acc. induction p as [|c p IH]; intros acc Hc; cbn [fold_left]; [exact Hc|].
+  apply (IH (fun x => acc x * x + c)).
+  apply continuity_plus; [|apply continuity_const; intros x y; reflexivity].
+  apply continuity_mult; [exact Hc|]. apply derivable_continuous, derivable_id.
+Qed.
+Lemma peval_continuity p : continuity (peval N p).
+Proof.
+  unfold peval. cbn [add mul zero NumR].
+  apply (peval_continuity_from p (fun _ => 0)). apply continuity_const. intros x y; reflexivity.
+Qed.
+
+Lemma prod_neg_cases u v : u * v < 0 -> (u < 0 /\ 0 < v) \/ (0 < u /\ v < 0).
+Proof.
+  intros H. destruct (Rlt_dec u 0) as [Hu|Hu]; [left|right].
+  - split; [assumption|]. destruct (Rlt_dec 0 v) as [Hv|Hv]; [assumption|exfalso].
+    assert (0 <= (- u) * (- v)) by (apply Rmult_le_pos; lra). lra.
+  - assert (u <> 0) by (intros ->; lra). assert (Hu' : 0 < u) by lra.
+    split; [assumption|]. destruct (Rlt_dec v 0) as [Hv|Hv]; [assumption|exfalso].
+    assert (0 <= u * v) by (apply Rmult_le_pos; lra). lra.
+Qed.
+
+Theorem sign_change_root p a b : a < b -> peval N p a * peval N p b < 0 ->
+  exists x, a <= x <= b /\ peval N p x = 0.
+Proof.
+  intros Hab Hs. destruct (prod_neg_cases _ _ Hs) as [[Ha Hb]|[Ha Hb]].
+  - destruct (IVT (peval N p) a b (peval_continuity p) Hab Ha Hb) as [z [Hz E]]. exists z; auto.
+  - assert (C : continuity (fun x => - peval N p x)) by (apply continuity_opp, peval_continuity).
+    destruct (IVT (fun x => - peval N p x) a b C Hab) as [z [Hz E]]; [lra|lra|].
+    exists z; split; auto. lra.
+Qed.
